@@ -310,8 +310,8 @@ def load_findings():
 
 def finding_for(prop, case, findings):
     for f in findings:
-        if f.get("property") != prop or f.get("status") != "open":
-            continue
+        if f.get("status") != "open":
+            continue   # (a finding is matched by the failing case, whichever property's check observes it)
         m = f.get("match", {})
         if "suite" in m and m["suite"] != case["suite"]:
             continue
@@ -466,7 +466,7 @@ def main():
     def report(case, kind, extra):
         kf = finding_for(prop, case, findings) if case else None
         if kf:
-            line = "KNOWN-FINDING: property=%s %s" % (prop, kf["what"])
+            line = "KNOWN-FINDING: property=%s %s" % (kf.get("property", prop), kf["what"])
             if line not in known_lines:
                 known_lines.append(line)
             return
